@@ -17,12 +17,47 @@ int8 = _rnp.int8; int16 = _rnp.int16; int32 = _rnp.int32; int64 = _rnp.int64
 float32 = _rnp.float32; float64 = _rnp.float64; bool_ = _rnp.bool_
 integer = _rnp.integer; floating = _rnp.floating; generic = _rnp.generic
 nan = float('nan'); inf = float('inf'); newaxis = None
-dtype = _rnp.dtype
+_CASTERS = {}
+def _caster(dt):
+    """dtype.type: a subclass of the numpy scalar type whose constructor also accepts symbolic scalars (numba: self_precision(x))"""
+    dt = _rnp.dtype(dt)
+    if dt not in _CASTERS:
+        base = dt.type
+        def __new__(cls, x=0, _dt=dt, _base=base):
+            if core.is_sym(x): return core.cast(x, _dt)
+            if isinstance(x, ndarray): return x.astype(_dt)
+            return _base(x)
+        try: _CASTERS[dt] = type(base.__name__, (base,), {'__new__': __new__})
+        except TypeError: _CASTERS[dt] = base
+    return _CASTERS[dt]
+class DT:
+    """numpy dtype seen from the sandbox: delegates everything to the real dtype (numpy accepts it through the .dtype protocol)
+    except .type, which must accept symbolic scalars"""
+    __slots__ = ('dtype',)
+    def __init__(self, d): self.dtype = _rnp.dtype(d)
+    def __getattr__(self, n): return getattr(self.dtype, n)
+    @property
+    def type(self): return _caster(self.dtype)
+    def _o(self, o): return o.dtype if isinstance(o, DT) else o
+    def __eq__(self, o):
+        try: return self.dtype == self._o(o)
+        except TypeError: return False
+    def __ne__(self, o): return not self.__eq__(o)
+    def __lt__(self, o): return self.dtype < _rnp.dtype(self._o(o))
+    def __le__(self, o): return self.dtype <= _rnp.dtype(self._o(o))
+    def __gt__(self, o): return self.dtype > _rnp.dtype(self._o(o))
+    def __ge__(self, o): return self.dtype >= _rnp.dtype(self._o(o))
+    def __hash__(self): return hash(self.dtype)
+    def __str__(self): return str(self.dtype)
+    def __repr__(self): return repr(self.dtype)
+    def __format__(self, f): return format(self.dtype, f)
+def dtype(x):
+    return DT(x)
 result_type_real = _rnp.result_type
 iinfo = _rnp.iinfo; finfo = _rnp.finfo
 
 def result_type(*a):
-    return _rnp.result_type(*[x.dtype if isinstance(x, ndarray) else x for x in a])
+    return DT(_rnp.result_type(*[x.dtype if isinstance(x, ndarray) else x for x in a]))
 
 # --------------------------------------------------------------------------- index keys / memo
 def _k1(k):
@@ -79,7 +114,7 @@ class ndarray:
     fixed: dict storage_axis -> index"""
     __array_priority__ = 1000
     def __init__(self, shape, dtype, st, vd=None, fixed=None, nst=None, ro_alias=False):
-        self.shape = tuple(shape); self.dtype = _rnp.dtype(dtype); self.st = st
+        self.shape = tuple(shape); self._dt = _rnp.dtype(dtype); self.st = st
         self.nst = len(self.shape) if nst is None else nst
         self.vd = vd if vd is not None else [('ax', a, 0, 1) for a in range(len(self.shape))]
         self.fixed = fixed or {}
@@ -88,6 +123,10 @@ class ndarray:
     @staticmethod
     def fresh(shape, fn, dtype, name=None, memoise=True):
         return ndarray(shape, dtype, Storage(fn, name, memoise, tuple(shape)))
+    @property
+    def dtype(self): return DT(self._dt)
+    @dtype.setter
+    def dtype(self, d): self._dt = _rnp.dtype(d)
     @property
     def ndim(self): return len(self.shape)
     @property
@@ -948,15 +987,15 @@ def concatenate(arrs, axis=0):
     snaps = [a.snapshot() for a in arrs]
     shape = list(arrs[0].shape); shape[axis] = offs[-1]
     def fn(i):
-        k = i[axis]; res = None
-        for j in reversed(range(len(arrs))):
-            lo = offs[j]
-            local = i[:axis] + (k - lo,) + i[axis + 1:]
-            if isinstance(k, int) and builtins.all(isinstance(o, int) for o in offs):
-                if offs[j] <= k < offs[j + 1]: return core.cast(snaps[j](local), dt)
-                continue
-            val = core.cast(snaps[j](local), dt)
-            res = val if res is None else Ite(mk_bool(zi(k) >= zi(lo)), val, res)
+        k = i[axis]
+        if isinstance(k, int) and builtins.all(isinstance(o, int) for o in offs):
+            for j in range(len(arrs)):
+                if offs[j] <= k < offs[j + 1]: return core.cast(snaps[j]((i[:axis] + (k - offs[j],) + i[axis + 1:])), dt)
+            raise IndexError('concatenate index out of range')
+        res = None
+        for j in range(len(arrs)):                       # piece j holds positions [offs[j], offs[j+1])
+            val = core.cast(snaps[j](i[:axis] + (k - offs[j],) + i[axis + 1:]), dt)
+            res = val if res is None else Ite(mk_bool(zi(k) >= zi(offs[j])), val, res)
         return res
     return ndarray.fresh(shape, fn, dt)
 def hstack(arrs):
@@ -1158,4 +1197,14 @@ class _RClass:
             else: parts.append(array([k]))
         return concatenate(parts, axis=0)
 r_ = _RClass()
-def linspace(*a, **k): raise NeedsContract('linspace')
+def linspace(start, stop, num=50, endpoint=True, dtype=None):
+    if not isinstance(num, int): raise NeedsContract('linspace with a symbolic number of points')
+    a, b = core.to_float(start), core.to_float(stop)
+    dt = _rnp.dtype(dtype) if dtype is not None else _rnp.dtype('float64')
+    div = (num - 1) if endpoint else num
+    vals = [core.cast(a + (b - a) * k / div, dt) if div else core.cast(a, dt) for k in range(num)]
+    return ndarray.fresh((num,), lambda i: vals[i[0]] if isinstance(i[0], int) else _pick_list(vals, i[0]), dt)
+def _pick_list(vals, k):
+    res = vals[0]
+    for j in range(1, len(vals)): res = Ite(mk_bool(zi(k) == j), vals[j], res)
+    return res
